@@ -42,6 +42,10 @@ func (C01Checker) Check(s *Step) []*Violation {
 			continue
 		}
 		if got, ok := dev[p]; ok {
+			if got == "<empty>" && hasExpectedBelow(exp, p) {
+				// a presence container necessarily exists while a live intent defines something below it
+				continue
+			}
 			vs = append(vs, &Violation{Clause: "stale-path", Sig: "stale-path:" + SchemaClass(p),
 				Detail: fmt.Sprintf("device still carries %s=%s although no live intent defines it; live=%s", p, got, m.Key())})
 		}
@@ -155,4 +159,13 @@ func sortedKeysB(m map[string]bool) []string {
 	}
 	sort.Strings(ks)
 	return ks
+}
+
+func hasExpectedBelow(exp map[string]string, p string) bool {
+	for q := range exp {
+		if strings.HasPrefix(q, p+"/") {
+			return true
+		}
+	}
+	return false
 }
